@@ -1,6 +1,7 @@
 package main
 
 import (
+	"go/token"
 	"fmt"
 	"go/types"
 	"strings"
@@ -117,7 +118,7 @@ func (x *Exec) doCall(fr *Frame, st *State, call *ssa.CallCommon, ins *ssa.Call,
 			return wrap(res), nil
 		}
 		x.C.Note("unmodelled interface call " + name + " (results and reachable heap havocked)")
-		x.havocHeap(st, "call "+name)
+		x.havocHeapAtCall(st, "call "+name)
 		return wrap(x.havocResults(st, sig, name)), nil
 	}
 	var fnv Val
@@ -184,6 +185,73 @@ func (x *Exec) freshVal(st *State, hint string, t types.Type) Val {
 	return x.fromTerm(term, t)
 }
 
+// havocHeapAtCall: havoc for an unknown callee — everything except the caller's private locals.
+func (x *Exec) havocHeapAtCall(st *State, why string) {
+	x.keepPrivate = true
+	defer func() { x.keepPrivate = false }()
+	x.havocHeap(st, why)
+}
+
+// privateAlloc reports whether the address of a local never leaves the function: it is only used to read and write
+// the local (directly or through field/element addresses) and as an argument of callees whose contract declares an
+// explicit assigns list (such a callee cannot store the pointer anywhere) and that do not return a pointer.
+func (x *Exec) privateAlloc(a *ssa.Alloc) bool {
+	if v, ok := x.privCache[a]; ok {
+		return v
+	}
+	if x.privCache == nil {
+		x.privCache = map[*ssa.Alloc]bool{}
+	}
+	var ok func(v ssa.Value, depth int) bool
+	ok = func(v ssa.Value, depth int) bool {
+		if depth > 6 || v.Referrers() == nil {
+			return false
+		}
+		for _, r := range *v.Referrers() {
+			switch r := r.(type) {
+			case *ssa.DebugRef:
+			case *ssa.UnOp:
+				if r.Op != token.MUL {
+					return false
+				}
+			case *ssa.Store:
+				if r.Val == v {
+					return false
+				}
+			case *ssa.FieldAddr:
+				if !ok(r, depth+1) {
+					return false
+				}
+			case *ssa.IndexAddr:
+				if r.X != v || !ok(r, depth+1) {
+					return false
+				}
+			case *ssa.Call:
+				fn := r.Call.StaticCallee()
+				if fn == nil || r.Call.IsInvoke() {
+					return false
+				}
+				fc := x.DB.For(fn)
+				if fc == nil || fc.AssignsAll || !fc.HasSpec() || fc.Trusted {
+					return false
+				}
+				res := fn.Signature.Results()
+				for i := 0; i < res.Len(); i++ {
+					if pt, isPtr := res.At(i).Type().Underlying().(*types.Pointer); isPtr && types.Identical(pt.Elem(), a.Type().Underlying().(*types.Pointer).Elem()) {
+						return false
+					}
+				}
+			default:
+				return false
+			}
+		}
+		return true
+	}
+	res := ok(a, 0)
+	x.privCache[a] = res
+	return res
+}
+
 // havocHeap: the whole heap becomes unknown (new epoch); the allocator only grows.
 func (x *Exec) havocHeap(st *State, why string) {
 	// package variables declared `stable` / `readonly` in the contract files keep their value across unknown effects
@@ -207,6 +275,24 @@ func (x *Exec) havocHeap(st *State, why string) {
 					x.C.Assume(Eq(t, k.t), "stable package variable keeps its value across "+why)
 				}
 			}
+		}
+	}()
+	// locals whose address provably never left the function (see privateAlloc) are out of the callee's reach
+	type keptLocal struct {
+		p PtrV
+		v Val
+	}
+	var locals []keptLocal
+	if x.keepPrivate {
+		for _, pl := range x.livePriv {
+			if v, err := x.Load(st, pl); err == nil {
+				locals = append(locals, keptLocal{pl, v})
+			}
+		}
+	}
+	defer func() {
+		for _, k := range locals {
+			x.Store(st, k.p, k.v)
 		}
 	}()
 	st.Epoch = x.newEpoch(nil)
@@ -295,7 +381,7 @@ func (x *Exec) callResolved(fr *Frame, st *State, fn *ssa.Function, args []Val, 
 	if len(fn.Blocks) == 0 || !strings.HasPrefix(pkgPathOf(fn), modPath) && !x.inlineStdlib(fn) {
 		x.C.Note("external call " + FuncDisplayName(fn) + " (results and heap havocked)")
 		if !x.isPureExternal(name) {
-			x.havocHeap(st, "call "+name)
+			x.havocHeapAtCall(st, "call "+name)
 		}
 		return x.havocResults(st, fn.Signature, fn.Name()), nil
 	}
